@@ -98,7 +98,10 @@ PROPS = {
 ENGINES = {
     # name -> dict(src: dir under harness/, pkg: (virtual) package dir inside the repo module, weave: file specs for /verif/weave)
     "wire": dict(src="wire", pkg="zz_verif/wire"),
-    "relay": dict(src="relay", pkg="obfs4proxy"),
+    "relay": dict(src="relay", pkg="obfs4proxy", weave=[
+        # the only rewrite: serverHandler's ORPort dial (a real socket) goes to the harness
+        dict(path="obfs4proxy/obfs4proxy.go", calls={"pt.DialOr": "verifDialOr"}),
+    ]),
     "woven": dict(src="woven", include=["wire"], pkg="zz_verif/woven", weave=[
         dict(path="common/replayfilter/replay_filter.go", yields=True, go=True, sync=True),
         dict(path="common/probdist/weighted_dist.go", yields=True, go=True, sync=True),
@@ -593,7 +596,7 @@ COMPONENTS = {
     "C16": {"real": ["transports/meeklite client", "net/http client transport"], "simulated": SIM_COMMON + ["runtime select order (seeded seam)", "woven engine: statement-level preemption in meek.go"], "stub": ["HTTP/1.1 server (http.ReadRequest over simnet)"]},
     "C17": {"real": ["common/socks5 (Handshake, Reply, argument parser)"], "simulated": SIM_COMMON, "stub": ["tor's SOCKS5 client and pt-spec argument encoder (harness)"]},
     "C18": {"real": ["transports/obfs4 server factory and state file code", "transports/scramblesuit client factory and ticket store"], "simulated": ["file system (simos: kill, torn write, EIO, ENOSPC at every mutating step; EIO, EACCES at every read)"] + SIM_COMMON, "stub": ["ScrambleSuit reference server; reference cert parser"]},
-    "C19": {"real": ["obfs4proxy copyLoop", "obfs4proxy clientHandler and serverHandler", "obfs4proxy newTermMonitor and termMonitor (wait, onHandlerStart, onHandlerFinish)", "common/socks5"], "simulated": SIM_COMMON + ["runtime select order (seeded seam)", "signals: offered on the monitor's channel by the simulation"], "stub": ["far ends, tor's SOCKS client, transports behind the handlers (stub factories); stdin/ppid watchers, accept loops and main() are not run"]},
+    "C19": {"real": ["obfs4proxy copyLoop", "obfs4proxy clientHandler and serverHandler", "obfs4proxy newTermMonitor and termMonitor (wait, onHandlerStart, onHandlerFinish)", "common/socks5"], "simulated": SIM_COMMON + ["runtime select order (seeded seam)", "signals: offered on the monitor's channel by the simulation"], "stub": ["far ends, tor's SOCKS client, transports behind the handlers (stub factories), the ORPort (pt.DialOr redirected to the simulation); stdin/ppid watchers, accept loops and main() are not run"]},
 }
 
 
